@@ -140,6 +140,7 @@ class Engine(StmtMixin, CallMixin, ExprMixin, EngineBase):
             st.env["$result"] = res
         # in postconditions parameter names denote the values passed in (a reassigned parameter is a local of the body)
         for pn in k.get("params", {}):
+            st.env["$final_" + pn] = st.env.get(pn)
             st.env[pn] = self.entry.env[pn]
         for i, e in enumerate(k.get("ensures", [])):
             g = self.spec(e, st, self.entry)
